@@ -2309,6 +2309,77 @@ mut("ok-twin-C20-9-collecting-scope", "benign", [], "unpin raises and clears its
 mut("dbg-with-closure-replace", "break", ["C20", "C07"], "the thread-wide flag is raised by KEY.with(|c| c.replace(true)) inside a debug_assert! (S-C20-9's slip on the plain tree)",
     [ed(I, "            THREAD_COLLECTING.with(|c| c.set(true));", "            debug_assert!(!THREAD_COLLECTING.with(|c| c.replace(true)));")], ["DBG-PURE"])
 
+# S-C17-9 (COMBINATOR flavour) with its slip corrected: the whole queue in Option/Result/iterator combinators
+TW179 = {"patch": "selftest/twins/C17-9-combinator-queue.diff"}
+mut("ok-twin-C17-9-combinator-queue", "benign", [], "queue in combinator style: push_internal as .map().or_else().map_or(), push as "
+    "`while !push_internal(..) {}`, try_pop / try_pop_if as iter::repeat_with(attempt).find_map(..).flatten(), pop_if_internal as "
+    ".filter(pred).map_or(Ok(None), |n| CAS from the examined head) (S-C17-9 with its slip corrected)", [TW179])
+mut("combo-twin-C17-9-always-linked", "break", ["C17"], "on top of the twin: push_internal answers true after merely helping the tail",
+    [TW179, ed(QF, """                    .compare_exchange(onto, succ, Release, Relaxed, guard);
+                linked
+            })""", """                    .compare_exchange(onto, succ, Release, Relaxed, guard);
+                let _ = linked;
+                true
+            })""")], ["EBR-QUEUE"])
+mut("combo-twin-C17-9-no-filter", "break", ["C17"], "on top of the twin: pop_if_internal without the .filter(predicate)",
+    [TW179, ed(QF, """            .filter(|n| condition(unsafe { &*n.data.as_ptr() }))
+            .map_or(Ok(None), |n| unsafe {""", """            .filter(|n| { let _ = &condition; !n.data.as_ptr().is_null() })
+            .map_or(Ok(None), |n| unsafe {""")], ["EBR-QUEUE"])
+mut("combo-twin-C17-9-first-attempt-only", "break", ["C17"], "on top of the twin: try_pop gives up after one lost race (next() instead "
+    "of find_map)", [TW179, ed(QF, """        iter::repeat_with(|| self.pop_internal(guard))
+            .find_map(Result::ok)
+            .flatten()""", """        iter::repeat_with(|| self.pop_internal(guard))
+            .next()
+            .and_then(Result::ok)
+            .flatten()""")], ["EBR-QUEUE"])
+mut("combo-twin-C17-9-swing-to-new", "break", ["C17"], "on top of the twin: the tail is swung to the new node even when it was not linked",
+    [TW179, ed(QF, """                    .compare_exchange(onto, succ, Release, Relaxed, guard);
+                linked""", """                    .compare_exchange(onto, { let _ = succ; new }, Release, Relaxed, guard);
+                linked""")], ["EBR-QUEUE"])
+
+# S-C11-9 (MACRO/COMBINATOR flavour) with its slip corrected: null tests through Tagged::as_ref / a new Tagged::as_mut that
+# tests the untagged address, handles' as_ref as `.map(RcInner::data)`, upgrade as `.map_or(true, RcInner::f).then(..)`
+TW119 = {"patch": "selftest/twins/C11-9-tagged-as-mut.diff"}
+mut("ok-twin-C11-9-tagged-as-mut", "benign", [], "null tests of every handle rewritten through Tagged::as_ref and a new Tagged::as_mut "
+    "(`(!self.is_null()).then(..)`), with_timestamp as `.then(..).unwrap_or(self)`, Rc/Snapshot::as_ref as "
+    "`self.ptr.as_ref().map(RcInner::data)`, upgrade as `.map_or(true, RcInner::try_increment_strong).then(..)` "
+    "(S-C11-9 with its slip corrected)", [TW119])
+mut("combo-twin-C11-9-drop-no-decrement", "break", ["C08", "C03"], "on top of the twin: AtomicRc::drop tests the link but does not release the share",
+    [TW119, ed("src/strong.rs", """            if let Some(cnt) = self.link.get_mut().as_mut() {
+                RcInner::decrement_strong(cnt, 1, None);
+            }""", """            let _ = self.link.get_mut().as_mut();""")], ["OWN-BALANCE"])
+mut("combo-twin-C11-9-upgrade-no-increment", "break", ["C05", "C03"], "on top of the twin: Weak::upgrade consults is_not_destructed (a read) "
+    "instead of try_increment_strong and hands out an Rc", [TW119, ed("src/weak.rs", """            .map_or(true, RcInner::try_increment_strong)
+            .then(|| Rc::from_raw(self.ptr))""", """            .map_or(true, RcInner::is_not_destructed)
+            .then(|| Rc::from_raw(self.ptr))""")], ["OWN-BALANCE"])
+mut("combo-twin-C11-9-snapshot-upgrade-unchecked", "break", ["C05"], "on top of the twin: WeakSnapshot::upgrade answers Some whatever the count "
+    "word says", [TW119, ed("src/weak.rs", """            .map_or(true, RcInner::is_not_destructed)
+            .then_some(Snapshot {""", """            .map_or(true, |_| true)
+            .then_some(Snapshot {""")], ["CW-INC-FAIL-ON-DESTRUCTED"])
+mut("combo-twin-C11-9-as-ref-inverted-deref", "break", ["C11", "C19"], "on top of the twin: Tagged::as_ref tests the packed word",
+    [TW119, ed("src/ebr_impl/pointers.rs", "(!self.is_null()).then(|| self.deref())", "(!self.ptr.is_null()).then(|| self.deref())")],
+    ["BIT-DELEGATION"])
+
+# function items handed to combinators are inlined like closures: the share they add is seen (or missed) by the ledger
+_CL_OLD = """        unsafe {
+            if let Some(cnt) = rc.ptr.as_raw().as_ref() {
+                cnt.increment_strong();
+            }
+        }
+        rc
+    }
+}
+
+impl<T: RcObject> Rc<T> {"""
+mut("ok-fnitem-clone-increment", "benign", [], "Rc::clone increments through `.as_ref().map(RcInner::increment_strong)` (a function item, no call "
+    "terminator in clone itself)", [ed("src/strong.rs", _CL_OLD, _CL_OLD.replace("""            if let Some(cnt) = rc.ptr.as_raw().as_ref() {
+                cnt.increment_strong();
+            }""", """            let _ = rc.ptr.as_raw().as_ref().map(RcInner::increment_strong);"""))])
+mut("fnitem-clone-reads-only", "break", ["C03", "C01"], "Rc::clone maps a read (RcInner::is_not_destructed) instead of the increment over the "
+    "referent: a second owner without a share", [ed("src/strong.rs", _CL_OLD, _CL_OLD.replace("""            if let Some(cnt) = rc.ptr.as_raw().as_ref() {
+                cnt.increment_strong();
+            }""", """            let _ = rc.ptr.as_raw().as_ref().map(RcInner::is_not_destructed);"""))], ["OWN-BALANCE"])
+
 # std's fetch_update on the count word (round-9 seeds used it twice): modelled as the CAS loop it is
 mut("ok-fetch-update-try-increment", "benign", [], "try_increment_strong written with AtomicU64::fetch_update",
     [ed(U, '        let mut old = State::from_raw(self.state.load(Ordering::SeqCst));\n        loop {\n            if old.destructed() {\n                return false;\n            }\n            let new = if old.strong() == 0 {\n                old.add_strong(2)\n            } else {\n                old.add_strong(1)\n            };\n            match self.state.compare_exchange(\n                old.as_raw(),\n                new.as_raw(),\n                Ordering::SeqCst,\n                Ordering::SeqCst,\n            ) {\n                Ok(_) => return true,\n                Err(curr) => old = State::from_raw(curr),\n            }\n        }', '        self.state\n            .fetch_update(Ordering::SeqCst, Ordering::SeqCst, |raw| {\n                let old = State::from_raw(raw);\n                if old.destructed() {\n                    return None;\n                }\n                let new = if old.strong() == 0 {\n                    old.add_strong(2)\n                } else {\n                    old.add_strong(1)\n                };\n                Some(new.as_raw())\n            })\n            .is_ok()')])
